@@ -1,10 +1,18 @@
 import JadeModel.Proofs.SystemGate
 import JadeModel.Proofs.SystemRows
+import JadeModel.Proofs.SystemStatusDefs
+import JadeModel.Proofs.SystemStatusFwdStep
+import JadeModel.Proofs.SystemStatusTornStep
+import JadeModel.Proofs.SystemStatusLocA
+import JadeModel.Proofs.SystemStatusLocB
+import JadeModel.Proofs.SystemStatusLocC
+import JadeModel.Proofs.SystemStatusLocD
+import JadeModel.Proofs.SystemStatusDoneStepA
+import JadeModel.Proofs.SystemStatusDoneStepB
 
 set_option linter.unusedSimpArgs false
 
-/-!
-# The persisted status at system level (C09)
+/-! # The persisted status at system level (C09)
 
 `s.disk` is the abstract content of `cluster_config.json` + `job_status.json`.  Three families:
 
@@ -17,164 +25,25 @@ set_option linter.unusedSimpArgs false
 * (`Proofs/SystemStatusFlow.lean`, `Proofs/SystemStatusRun.lean`) `FlowA`/`FlowB`/`Counters` — fault-free op
   sequences (`Op.isFault = false`, defined here): completion "tokens" are unique (one row per job, collected
   once), hence the two counters are exactly the numbers of done and of submitted-or-done jobs.
--/
+
+Definitions: `SystemStatusDefs`; the step lemmas are in separate files (compiled in parallel).
+ -/
 
 namespace Jade.Sys
 
-/-- the injected faults: a collector dying between copy and removal, a crash between the two files of
-    `update_job_status`, SIGKILL, an exception, a lost batch, a failed `sbatch` -/
-def Op.isFault : Op → Bool
-  | .collectCopy _ _ => true
-  | .persistCfg _ => true
-  | .persistJobs _ => true
-  | .kill _ => true
-  | .fail _ => true
-  | .batchLost _ => true
-  | .sbatch _ _ none => true
-  | _ => false
-
-/-- histories without injected faults -/
-def plainOps (ops : List Op) : Prop := ∀ op ∈ ops, op.isFault = false
-
-instance (ops : List Op) : Decidable (plainOps ops) := by unfold plainOps; infer_instance
-
-/-- order of job states: not_submitted < submitted < done -/
-def rank : JSt → Nat
-  | .ns => 0
-  | .sub => 1
-  | .done => 2
-
-/-! ## all ops: the holder's copy is never behind the disk -/
-
-structure LocInv (s : Sys) : Prop where
-  /-- the holder's copy of the two counters is the disk's -/
-  cnt : ∀ q a y, s.procs q = .sub a y → holds y.pc = true →
-    y.loc.subCnt = s.disk.subCnt ∧ y.loc.doneCnt = s.disk.doneCnt
-  /-- … its copy of a job's state is the disk's or ahead of it -/
-  locDone : ∀ q a y, s.procs q = .sub a y → holds y.pc = true → ∀ j, s.disk.st j = .done → y.loc.st j = .done
-  locNs : ∀ q a y, s.procs q = .sub a y → holds y.pc = true → ∀ j, s.disk.st j ≠ .ns → y.loc.st j ≠ .ns
-  /-- … its copy of a remaining-blockers set is a subset of the disk's -/
-  locBlk : ∀ q a y, s.procs q = .sub a y → holds y.pc = true → ∀ j b, b ∈ y.loc.blk j → b ∈ s.disk.blk j
-  /-- what it handed out in this round was NOT_SUBMITTED when the round began -/
-  pendNs : ∀ q a y, s.procs q = .sub a y → ∀ j ∈ y.pend, y.loc.st j = .ns
-  pendPc : ∀ q a y, s.procs q = .sub a y → y.pend ≠ [] → y.pc = .marked ∨ y.pc = .failing
-  /-- on disk a submitted or done job has no remaining blockers -/
-  blkClear : ∀ j, s.disk.st j ≠ .ns → s.disk.blk j = []
-
-theorem locInv_init (sc : Scn) : LocInv (init sc) := by
-  refine ⟨?_, ?_, ?_, ?_, ?_, ?_, ?_⟩ <;> simp [init]
-
-macro "frame_st" : tactic => `(tactic|
-  try simp only [HasRow, freshHid_some_iff, procs_setSub, procs_setNode,
-    procs_setProc, setSub_fields, setNode_fields, setProc_fields, holds_iff] at *)
-
-set_option maxHeartbeats 32000000 in
 theorem locInv_step {s s' : Sys} {op : Op} (hr : RoleInv s) (hi : LocInv s) (h : step s op = some s') :
     LocInv s' := by
-  obtain ⟨h1, h2, h3, h4, h5⟩ := hr
-  obtain ⟨l1, l2, l3, l4, l5, l6, l7⟩ := hi
-  cases op <;> step_cases h <;>
-    (refine ⟨?_, ?_, ?_, ?_, ?_, ?_, ?_⟩ <;> frame_st)
-  all_goals first
-    | proc_clause
-    | grind [SubP.load, persistStatus]
+  obtain ⟨c_cnt, c_locDone⟩ := locInv_step_a hr hi h
+  obtain ⟨c_locNs, c_locBlk⟩ := locInv_step_b hr hi h
+  obtain ⟨c_pendNs, c_pendPc⟩ := locInv_step_c hr hi h
+  have c_blkClear := locInv_step_d hr hi h
+  exact ⟨c_cnt, c_locDone, c_locNs, c_locBlk, c_pendNs, c_pendPc, c_blkClear⟩
 
-end Jade.Sys
-
-namespace Jade.Sys
-
-/-- the two-state relation "only moved forward" between two contents of the status files -/
-structure Fwd (d d' : Status) : Prop where
-  stNs : ∀ j, d.st j ≠ .ns → d'.st j ≠ .ns
-  stDone : ∀ j, d.st j = .done → d'.st j = .done
-  blk : ∀ j b, b ∈ d'.blk j → b ∈ d.blk j
-  sub : d.subCnt ≤ d'.subCnt
-  done : d.doneCnt ≤ d'.doneCnt
-  complete : d.complete = true → d'.complete = true
-  canceled : d.canceled = true → d'.canceled = true
-
-theorem Fwd.refl (d : Status) : Fwd d d :=
-  ⟨fun _ h => h, fun _ h => h, fun _ _ h => h, Nat.le_refl _, Nat.le_refl _, fun h => h, fun h => h⟩
-
-theorem Fwd.trans {a b c : Status} (h1 : Fwd a b) (h2 : Fwd b c) : Fwd a c :=
-  ⟨fun j h => h2.stNs j (h1.stNs j h), fun j h => h2.stDone j (h1.stDone j h),
-   fun j x h => h1.blk j x (h2.blk j x h), Nat.le_trans h1.sub h2.sub, Nat.le_trans h1.done h2.done,
-   fun h => h2.complete (h1.complete h), fun h => h2.canceled (h1.canceled h)⟩
-
-/-- a job's state only advances not_submitted → submitted → done -/
-theorem Fwd.rank_le {d d' : Status} (h : Fwd d d') (j : JobId) : rank (d.st j) ≤ rank (d'.st j) := by
-  have h1 := h.stNs j
-  have h2 := h.stDone j
-  cases hd : d.st j <;> cases hd' : d'.st j <;> simp_all [rank]
-
-set_option maxHeartbeats 32000000 in
-/-- every accepted event — faults included — moves the persisted status only forward -/
-theorem fwd_step {s s' : Sys} {op : Op} (hg : GateInv s) (hi : LocInv s) (h : step s op = some s') :
-    Fwd s.disk s'.disk := by
-  obtain ⟨⟨h1, h2, h3, h4, h5⟩, g1, -, -, -, -⟩ := hg
-  obtain ⟨l1, l2, l3, l4, l5, l6, l7⟩ := hi
-  cases op <;> step_cases h <;> frame_st <;>
-    first
-    | exact Fwd.refl _
-    | (refine ⟨?_, ?_, ?_, ?_, ?_, ?_, ?_⟩ <;> grind [SubP.load, persistStatus])
-
-end Jade.Sys
-
-namespace Jade.Sys
-
-/-! ## every done job has a recorded result -/
-
-/-- job `j` was canceled in memory by a round that has not (yet) appended its canceled row -/
-def TornCancel (s : Sys) (j : JobId) : Prop := ∃ q a y, s.procs q = .sub a y ∧ j ∈ y.toCancel
-
-/-- `T`: may the second half of a torn `update_job_status` occur in the history? -/
-def tornOk (T : Prop) : Op → Prop
-  | .persistJobs _ => T
-  | _ => True
-
-structure DoneRow (T : Prop) (s : Sys) : Prop where
-  toCancelPc : ∀ q a y, s.procs q = .sub a y → y.toCancel ≠ [] → y.pc = .collecting ∨ y.pc = .failing ∨ y.pc = .gone
-  locRow : ∀ q a y, s.procs q = .sub a y → holds y.pc = true → ∀ j, y.loc.st j = .done →
-    HasRow s j ∨ j ∈ y.toCancel ∨ (T ∧ TornCancel s j)
-  diskRow : ∀ j, s.disk.st j = .done → HasRow s j ∨ (T ∧ TornCancel s j)
-
-theorem doneRow_init (T : Prop) (sc : Scn) : DoneRow T (init sc) := by
-  refine ⟨?_, ?_, ?_⟩ <;> simp [init]
-
-theorem tornCancel_step {s s' : Sys} {op : Op} (hd : ∀ q a y, s.procs q = .sub a y → y.toCancel ≠ [] → y.pc = .collecting ∨ y.pc = .failing ∨ y.pc = .gone)
-    (h : step s op = some s') (j : JobId) (ht : TornCancel s j) :
-    TornCancel s' j ∨ HasRow s' j := by
-  have hnew := newRow_step h
-  obtain ⟨q, a, y, hq, hj⟩ := ht
-  unfold TornCancel
-  cases op <;> simp only [newRowFact] at hnew <;> step_cases h <;> frame_st <;>
-    grind [SubP.load]
-
-end Jade.Sys
-
-namespace Jade.Sys
-
-set_option maxHeartbeats 32000000 in
 theorem doneRow_step {T : Prop} {s s' : Sys} {op : Op} (hr : RoleInv s) (hb : BlockInv s) (hi : DoneRow T s)
     (hT : tornOk T op) (h : step s op = some s') : DoneRow T s' := by
-  have hnew := newRow_step h
-  have hmono := fun j => hasRow_step h j
-  have htc := tornCancel_step hi.toCancelPc h
-  have hself : ∀ q a y, s.procs q = .sub a y → ∀ j ∈ y.toCancel, TornCancel s j := fun q a y hq j hj => ⟨q, a, y, hq, hj⟩
-  obtain ⟨h1, h2, h3, h4, h5⟩ := hr
-  have k3 := hb.seen
-  obtain ⟨d1, d2, d3⟩ := hi
-  cases op <;> simp only [newRowFact] at hnew <;> simp only [tornOk] at hT <;> step_cases h <;>
-    (refine ⟨?_, ?_, ?_⟩ <;> frame_st)
-  all_goals first
-    | proc_clause
-    | grind [SubP.load, persistStatus]
-
-end Jade.Sys
-
-namespace Jade.Sys
-
-/-! ## lifting to runs -/
+  obtain ⟨c_toCancelPc, c_diskRow⟩ := doneRow_step_a hr hb hi hT h
+  have c_locRow := doneRow_step_b hr hb hi hT h
+  exact ⟨c_toCancelPc, c_locRow, c_diskRow⟩
 
 /-- the all-ops invariants of this file together with the ones they rest on -/
 structure StatusAll (T : Prop) (s : Sys) : Prop where
@@ -214,17 +83,5 @@ theorem fwd_run {s s' : Sys} (ops : List Op) (hi : StatusAll True s) (h : run s 
       have hT : tornOk True op := by cases op <;> trivial
       exact Fwd.trans (fwd_step hi.gate hi.loc hs) (ih (statusAll_step hi hT hs) h)
     · cases h
-
-/-- histories in which no process completes the job-status half of an `update_job_status` it was torn out of -/
-def noTornJobs (ops : List Op) : Prop := ∀ op ∈ ops, tornOk False op
-
-instance (op : Op) : Decidable (tornOk False op) := by cases op <;> simp only [tornOk] <;> infer_instance
-instance (ops : List Op) : Decidable (noTornJobs ops) := by unfold noTornJobs; infer_instance
-
-theorem tornOk_true (ops : List Op) : ∀ op ∈ ops, tornOk True op := by
-  intro op _; cases op <;> trivial
-
-theorem tornOk_of_plain {op : Op} (h : op.isFault = false) : tornOk False op := by
-  cases op <;> simp_all [tornOk, Op.isFault]
 
 end Jade.Sys
